@@ -5,7 +5,9 @@
 package main
 
 import (
+	"reflect"
 	"runtime"
+	"unsafe"
 	"bufio"
 	"bytes"
 	"encoding/json"
@@ -60,6 +62,22 @@ func vSubscribe(addr string, drain bool) *vSubscriber {
 	return s
 }
 
+// vTapNotifier registers a channel of the harness among the notifier's subscriber channels (an unexported map of another
+// package: reflect + unsafe), so that "has this been published yet" can be asked without any network in between
+func vTapNotifier(n *eventnotifier.EventNotifier, size int) chan eventmon.EventV0 {
+	tap := make(chan eventmon.EventV0, size)
+	v := reflect.ValueOf(n).Elem()
+	mu := v.FieldByName("mutex")
+	lock := reflect.NewAt(mu.Type(), unsafe.Pointer(mu.UnsafeAddr())).Interface().(sync.Locker)
+	f := v.FieldByName("transmitChannels")
+	m := reflect.NewAt(f.Type(), unsafe.Pointer(f.UnsafeAddr())).Elem()
+	var send chan<- eventmon.EventV0 = tap
+	lock.Lock()
+	m.SetMapIndex(reflect.ValueOf(send), reflect.ValueOf(send))
+	lock.Unlock()
+	return tap
+}
+
 func init() { vRunners["C20"] = runC20 }
 
 func runC20(t *testing.T, cases []map[string]interface{}, ev *vEvents) {
@@ -89,6 +107,13 @@ func runC20(t *testing.T, cases []map[string]interface{}, ev *vEvents) {
 		at    time.Time
 	}
 	var issued []issuedT
+	// "no later than the response": when the handler has returned, the certificate's event has been handed to every
+	// subscriber channel.  One processor while certificates are issued: whatever the handler left to a goroutine of its
+	// own cannot have run by the time the harness looks (the look itself never yields)
+	tap := vTapNotifier(eventNotifier, 1<<16)
+	tapped := map[string]bool{}
+	unpublished, tapChecked := 0, 0
+	unpublishedPaths := []string{}
 	issue := func(path string) time.Duration {
 		var q vReq
 		switch path {
@@ -111,20 +136,36 @@ func runC20(t *testing.T, cases []map[string]interface{}, ev *vEvents) {
 		}
 		t0 := time.Now()
 		r := w.Do(q)
+	drain:
+		for {
+			select {
+			case e := <-tap:
+				tapped[string(e.CertData)] = true
+			default:
+				break drain
+			}
+		}
 		d := time.Since(t0)
 		info := w.parseIssued(r.Body)
 		if info.Kind != "none" {
 			issued = append(issued, issuedT{info.Raw, time.Now()})
+			tapChecked++
+			if !tapped[string(info.Raw)] {
+				unpublished++
+				unpublishedPaths = append(unpublishedPaths, path)
+			}
 		}
 		return d
 	}
 	paths := []string{"ssh", "x509", "kubernetes", "role", "refresh", "awsrole", "ssh-ed25519"}
+	procs := runtime.GOMAXPROCS(1)
 	for k := 0; k < rounds; k++ {
 		for _, p := range paths {
 			issue(p)
 			time.Sleep(5 * time.Millisecond) // let the draining subscriber keep up (it must never be 16 behind)
 		}
 	}
+	runtime.GOMAXPROCS(procs)
 	// login events
 	wantLogins := 0
 	htmlH := map[string]string{"Accept": "text/html"}
@@ -208,5 +249,6 @@ func runC20(t *testing.T, cases []map[string]interface{}, ev *vEvents) {
 		missing = 0
 	}
 	ev.Emit(map[string]interface{}{"i": 0, "ev": "Stream", "responded": resp, "fast": fastIDs, "maxIssueMsWithStalledSubscriber": int(maxIssue / time.Millisecond),
-		"floodMs": floodMs, "loginsMissing": missing, "loginEvents": gotLogins, "lateEvents": late, "paths": paths, "rounds": rounds})
+		"floodMs": floodMs, "loginsMissing": missing, "loginEvents": gotLogins, "lateEvents": late, "paths": paths, "rounds": rounds,
+		"unpublishedAtResponse": unpublished, "unpublishedPaths": unpublishedPaths, "publishedAtResponseChecked": tapChecked})
 }
